@@ -150,7 +150,11 @@ class World(object):
         self.conf = conf
         self.base = base
         self.kind = conf.get('kind', 'file')
-        self.lenient = self.kind != 'file'
+        self.bulk = bool(conf.get('bulk'))
+        self.lock_timeout = conf.get('lock_timeout', 1000)
+        self.vclock = 'lock_timeout' in conf       # virtual clock for mapproxy.util.lock
+        self.clock = time.time()
+        self.lenient = self.kind != 'file' or self.bulk or self.vclock
         self.substeps = self.kind == 'file-link'
         self.uniform = self.kind == 'file-link'
         self.procs = bool(conf.get('procs'))
@@ -164,15 +168,17 @@ class World(object):
         self.lock_dir = os.path.join(base, 'locks')
         self.opts = ImageOptions(format='image/png')
         self.source = Source(self)
+        if self.bulk:
+            self.source.supports_meta_tiles = False      # a tiled source: bulk meta tiles, one upstream request per tile
         self.expire = bool(conf.get('expire'))
         self.expire_ts = int(time.time()) - 1000
         ms = list(conf['meta'])
         self.caches, self.tms = [], []
         for _ in range(nworkers if self.procs else 1):
             cache = self.make_cache()
-            locker = TileLocker(self.lock_dir, 1000, cache.lock_cache_id)
+            locker = TileLocker(self.lock_dir, self.lock_timeout, cache.lock_cache_id)
             tm = TileManager(self.grid, cache, [self.source], 'png', locker, image_opts=self.opts,
-                             meta_size=ms, meta_buffer=0, concurrent_tile_creators=1)
+                             meta_size=ms, meta_buffer=0, concurrent_tile_creators=1, bulk_meta_tiles=self.bulk)
             if self.expire:
                 # an expire timestamp in the past: files written during the run are not expired
                 tm._expire_timestamp = self.expire_ts
@@ -395,6 +401,8 @@ class Sched(object):
         self.weird = []
         self.oracle_fail = []
         self.results = [None] * self.m
+        self.timeout_ok = set()   # requesters that may end with LockTimeout
+        self.wait_start = {}      # tid -> virtual clock at the first refused attempt of the current lock() call
         self.last_exists = {}  # tid -> (path, entry, exists) of the exists call of the current step
         self.holding = {}      # tid -> lock key
         self.holder = {}       # lock key -> tid
@@ -546,11 +554,16 @@ class Sched(object):
             r = real(lock)
         except LockError:
             entry['res'] = ('lock', k, False)
+            ws = self.wait_start.setdefault(entry['pid'], self.world.clock)
+            if self.world.vclock and self.world.clock - ws >= self.world.lock_timeout and k in self.holder \
+                    and self.holder[k] != entry['pid']:
+                self.timeout_ok.add(entry['pid'])
             if k not in self.holder or self.holder[k] == entry['pid']:
                 self.oracle_fail.append(('refused-without-holder',
                                          'lock attempt of requester %d on %r refused although no other requester holds that lock' % (entry['pid'], k)))
             raise
         entry['res'] = ('lock', k, True)
+        self.wait_start.pop(entry['pid'], None)
         if k in self.holder:
             self.oracle_fail.append(('two-holders', 'requesters %d and %d both hold the lock of tile %r' % (self.holder[k], entry['pid'], k)))
         self.holder[k] = entry['pid']
@@ -626,6 +639,9 @@ class Sched(object):
                 self.wait_arrival()
             steps = 0
             for pid in schedule:
+                if isinstance(pid, (tuple, list)) and pid[0] == 'tick':
+                    self.world.clock += pid[1]      # ('tick', seconds): the clock of mapproxy.util.lock advances
+                    continue
                 if isinstance(pid, (tuple, list)):
                     # ('until', requester, access): let the requester run until that access is the next one
                     _, q, op = pid
@@ -726,7 +742,11 @@ class Patches(object):
         MB.os = Proxy(real_os, path=Proxy(real_os.path, exists=mb_exists))
         F.write_atomic = wa
         L.os = Proxy(real_os, remove=rm)
-        L.time = Proxy(real_time, sleep=sleep)
+        def vtime():
+            s = me.cur()
+            return s.world.clock if (s and s.world.vclock) else real_time.time()
+
+        L.time = Proxy(real_time, sleep=sleep, time=vtime)
         L.FileLock._try_lock = try_lock
         return self
 
@@ -888,6 +908,48 @@ def link_family(rng, count):
     return out
 
 
+def bulk_family(rng, count):
+    """tiled source (supports_meta_tiles = False) with bulk_meta_tiles: _create_bulk_meta_tile asks the upstream once per
+    tile of the meta tile under the meta tile lock; waiters must find the tiles in their re-check under the lock"""
+    out = []
+    for v in range(count):
+        conf = {'extent': (32, 32), 'res': (8, 4, 2, 1), 'origin': rng.choice(['ll', 'ul']), 'bulk': True,
+                'meta': rng.choice([(2, 2), (2, 1), (3, 2)]), 'procs': v % 3 == 0, 'expire': v % 5 == 4}
+        m = rng.choice([2, 3, 4])
+        z = rng.choice([2, 3])
+        n = 2 ** z
+        t = (rng.randrange(n), rng.randrange(n), z)
+        reqs = [[t] if rng.random() < 0.7 else [(t[0] ^ 1, t[1], z)] for _ in range(m)]
+        if v % 2 == 0:
+            # everybody looks first (miss), then one after the other
+            sched = [i for i in range(m) for _ in range(2)] + [i for i in range(m) for _ in range(40)]
+        else:
+            sched = gen_schedule(rng, m, 100)
+        out.append((conf, reqs, None if v % 4 == 1 else [], sched, 'bulk-meta-tile'))
+    return out
+
+
+def timeout_family(rng, count):
+    """the upstream request of the lock holder takes longer than the lock timeout: a waiter gives up with LockTimeout
+    (virtual clock for mapproxy.util.lock); requests that come later must still wait for the holder"""
+    out = []
+    for v in range(count):
+        conf = {'extent': (32, 32), 'res': (8, 4, 2, 1), 'origin': rng.choice(['ll', 'ul']), 'lock_timeout': 10,
+                'meta': rng.choice([(1, 1), (2, 2), (2, 1)]), 'procs': v % 3 == 0}
+        m = rng.choice([3, 3, 4])
+        z = rng.choice([2, 3])
+        n = 2 ** z
+        t = (rng.randrange(n), rng.randrange(n), z)
+        reqs = [[t] for _ in range(m)]
+        sched = [('until', 0, 'fetch'), ('until', 1, 'lock'), 1, ('tick', rng.choice([4, 11])), 1, 1, ('tick', 7), 1, 1]
+        for w in range(2, m):
+            sched += [('until', w, 'lock'), w, w]
+        if v % 2:
+            sched += gen_schedule(rng, m, 40)
+        out.append((conf, reqs, [], sched, 'lock-timeout'))
+    return out
+
+
 def sqlite_family(rng, count):
     """sqlite cache (one MBTiles file per level, created on first use), every requester with its own cache objects like a
     worker process: the first requests of a level initialise its file concurrently"""
@@ -931,7 +993,9 @@ def corpus_cases():
             conf = {'extent': tuple(d['conf']['extent']), 'res': tuple(d['conf']['res']), 'origin': d['conf']['origin'],
                     'meta': tuple(d['conf']['meta']), 'expire': bool(d['conf'].get('expire')),
                     'dims': d['conf'].get('dims'), 'procs': bool(d['conf'].get('procs')),
-                    'kind': d['conf'].get('kind', 'file')}
+                    'kind': d['conf'].get('kind', 'file'), 'bulk': bool(d['conf'].get('bulk'))}
+            if d['conf'].get('lock_timeout') is not None:
+                conf['lock_timeout'] = d['conf']['lock_timeout']
             if 'stale' in d:
                 conf['stale'] = [tuple(t) for t in d['stale']]
             out.append((conf, [[tuple(t) for t in r] for r in d['requests']], [tuple(t) for t in d.get('initial', [])],
@@ -997,7 +1061,7 @@ def compact_trace(trace):
 def run_one(ctx, patches, conf, reqs, initial, schedule, seq_no, rootdir, rng):
     base = os.path.join(rootdir, 'w%d' % seq_no)
     os.makedirs(base)
-    ids = [x if isinstance(x, int) else x[1] for x in schedule]
+    ids = [x if isinstance(x, int) else x[1] for x in schedule if isinstance(x, int) or x[0] != 'tick']
     m = len(reqs) if reqs is not None else (max(ids) + 1 if ids else 2)
     world = World(conf, base, m)
     if reqs is None:
@@ -1043,6 +1107,8 @@ def oracle(world, s, reqs, initial, hang, final, extra, left):
             if not hang:
                 out.append(('no-response', 'requester %d produced no response' % tid))
         elif r[0] == 'raised':
+            if r[1] == 'LockTimeout' and tid in s.timeout_ok:
+                continue        # waited for the whole lock timeout while another requester held the lock
             out.append(('unexpected-exception', 'requester %d raised %s: %s' % (tid, r[1], r[2])))
         else:
             got = [kv[0] for kv in r[1]]
@@ -1055,23 +1121,24 @@ def oracle(world, s, reqs, initial, hang, final, extra, left):
                 elif v != world.want(c):
                     out.append(('response-wrong-tile', 'requester %d received image %r for tile %r (expected %r)' % (tid, v, c, world.want(c))))
     # one upstream call per meta tile
-    per = {}
-    for call in world.source.calls:
-        for b in call['blocks']:
-            per.setdefault(world.my_main(b), []).append(call['main'])
+    # (counted per tile the answers cover: a meta tile request covers all its tiles, a bulk meta tile is one request per tile)
     seen = {}
     for call in world.source.calls:
-        ms = sorted(set(world.my_main(b) for b in call['blocks']))
-        for mt in ms:
-            seen[mt] = seen.get(mt, 0) + 1
-    for mt, n in sorted(seen.items()):
+        for b in set(call['blocks']):
+            seen[b] = seen.get(b, 0) + 1
+    dup = {}
+    for b, n in seen.items():
         if n > 1:
-            out.append(('duplicate-fetch', 'the upstream was asked %d times for meta tile %r' % (n, mt)))
+            dup[world.my_main(b)] = max(dup.get(world.my_main(b), 0), n)
+    for mt, n in sorted(dup.items()):
+        out.append(('duplicate-fetch', 'the upstream was asked %d times for meta tile %r' % (n, mt)))
     # final cache
     init = set(initial)
     expect = set(init)
     renewed = set()
-    for r in reqs:
+    for tid, r in enumerate(reqs):
+        if tid in s.timeout_ok:
+            continue            # gave up waiting for the lock: created nothing
         for t in r:
             if tuple(t) not in init:
                 renewed.update(world.my_members(world.my_main(tuple(t))))
@@ -1129,6 +1196,8 @@ def run_threads(ctx, reload_flag):
     todo += exh
     todo += link_family(rng, ctx.n(40, 300))
     todo += sqlite_family(rng, ctx.n(50, 250))
+    todo += bulk_family(rng, ctx.n(40, 300))
+    todo += timeout_family(rng, ctx.n(30, 200))
 
     terms, descr = [], []
     reported = set()
@@ -1148,7 +1217,8 @@ def run_threads(ctx, reload_flag):
             rep = {'origin': origin, 'conf': {'extent': list(conf['extent']), 'res': list(conf['res']), 'origin': conf['origin'],
                                               'meta': list(conf['meta']), 'expire': bool(conf.get('expire')),
                                               'dims': conf.get('dims'), 'procs': bool(conf.get('procs')),
-                                              'kind': conf.get('kind', 'file')},
+                                              'kind': conf.get('kind', 'file'), 'bulk': bool(conf.get('bulk')),
+                                              'lock_timeout': conf.get('lock_timeout')},
                    'stale': [list(t) for t in world.stale],
                    'requests': [[list(t) for t in r] for r in reqs], 'initial': [list(t) for t in initial],
                    'schedule': list(schedule), 'trace': compact_trace(trace),
@@ -1159,12 +1229,13 @@ def run_threads(ctx, reload_flag):
                      {'conf': rep['conf'], 'requests': rep['requests'], 'initial': rep['initial'], 'steps': len(trace),
                       'trace_head': compact_trace(trace[:30])})
             ctx.count('origin=' + origin.split(':')[0])
-            ctx.count('kind=' + world.kind + (',own-objects-per-requester' if world.procs else '') + (',dimensions' if world.dims else ''))
+            ctx.count('kind=' + world.kind + (',bulk-meta-tiles' if world.bulk else '') + (',lock-timeouts' if world.vclock else '') + (',own-objects-per-requester' if world.procs else '') + (',dimensions' if world.dims else ''))
             ctx.count('mode=' + ('meta' if world.meta else 'single') + (',expire' if world.expire else ''))
             ctx.count('expired-tiles', len(world.stale))
             ctx.count('requesters=%d' % len(reqs))
             ctx.count('accesses', len(trace))
             ctx.count('lock-refused', refused)
+            ctx.count('requests-ended-with-LockTimeout', len(s.timeout_ok))
             ctx.count('found-under-lock-or-second-look', under)
             ctx.count('upstream-calls', len(world.source.calls))
             ctx.count('initial-tiles', len(initial))
